@@ -4,7 +4,8 @@ managers (regular actors / operating-point actors), the latest system bounds, an
 of `_run` and `_bounds_tracker`.  Each handler is atomic (the real handlers only await uncontended
 channel sends).  The model follows the code AFTER `fix: … sum of the current targets of both groups`
 (see known_findings.json): a `None` returned by one group means "unchanged", so the request is the
-sum of the stored targets and the second group's bounds are shifted by the first group's stored target.
+sum of the stored targets; and after `fix: … operating point power first`: the operating-point group is
+always computed first against the system bounds, the regular group against the bounds shifted by it.
 -/
 import Frequenz.Model.Matryoshka
 
@@ -38,41 +39,35 @@ def combine (opT regT : Option Rat) : Option Rat :=
   | some a, none => some a
   | none, r => r
 
-/-- The two-stage computation shared by the three branches of `_calculate_target_power`: the
-first group against the system bounds, the second group against the bounds shifted by the first
-group's stored target.  The flag says whether either group returned a (changed) target. -/
-def twoStage (first second : Mgr) (p : Option Proposal) (sb : SystemBounds) (must : Bool) :
+/-- The two-stage computation of `_calculate_target_power`: the operating-point group against the
+system bounds, then the regular group against the bounds shifted by the operating-point group's
+stored target (the same bounds the regular actors are shown in their reports).  The flag says
+whether either group returned a (changed) target. -/
+def twoStage (first second : Mgr) (p1 p2 : Option Proposal) (sb : SystemBounds) (must : Bool) :
     Mgr × Mgr × Bool :=
-  ((first.calc p sb must).1,
-   (second.calc none (shifted sb (first.calc p sb must).1.last) must).1,
-   (first.calc p sb must).2.isSome ||
-     (second.calc none (shifted sb (first.calc p sb must).1.last) must).2.isSome)
+  ((first.calc p1 sb must).1,
+   (second.calc p2 (shifted sb (first.calc p1 sb must).1.last) must).1,
+   (first.calc p1 sb must).2.isSome ||
+     (second.calc p2 (shifted sb (first.calc p1 sb must).1.last) must).2.isSome)
+
+/-- The proposal handed to the operating-point group / to the regular group. -/
+def opPart : Option (Proposal × Bool) → Option Proposal
+  | some (q, true) => some q
+  | _ => none
+
+def regPart : Option (Proposal × Bool) → Option Proposal
+  | some (q, false) => some q
+  | _ => none
 
 /-- `_calculate_target_power(component_ids, proposal, must_send)`; the `Bool` = `set_operating_point`. -/
 def calcPower (st : State) (sb : SystemBounds) (p : Option (Proposal × Bool)) (must : Bool) :
     State × Option Rat :=
-  match p with
-  | some (q, true) =>
-    ({ st with op := (twoStage st.op st.reg (some q) sb must).1,
-               reg := (twoStage st.op st.reg (some q) sb must).2.1 },
-     if (twoStage st.op st.reg (some q) sb must).2.2 then
-       combine (twoStage st.op st.reg (some q) sb must).1.last
-         (twoStage st.op st.reg (some q) sb must).2.1.last
-     else none)
-  | some (q, false) =>
-    ({ st with reg := (twoStage st.reg st.op (some q) sb must).1,
-               op := (twoStage st.reg st.op (some q) sb must).2.1 },
-     if (twoStage st.reg st.op (some q) sb must).2.2 then
-       combine (twoStage st.reg st.op (some q) sb must).2.1.last
-         (twoStage st.reg st.op (some q) sb must).1.last
-     else none)
-  | none =>
-    ({ st with reg := (twoStage st.reg st.op none sb must).1,
-               op := (twoStage st.reg st.op none sb must).2.1 },
-     if (twoStage st.reg st.op none sb must).2.2 then
-       combine (twoStage st.reg st.op none sb must).2.1.last
-         (twoStage st.reg st.op none sb must).1.last
-     else none)
+  ({ st with op := (twoStage st.op st.reg (opPart p) (regPart p) sb must).1,
+             reg := (twoStage st.op st.reg (opPart p) (regPart p) sb must).2.1 },
+   if (twoStage st.op st.reg (opPart p) (regPart p) sb must).2.2 then
+     combine (twoStage st.op st.reg (opPart p) (regPart p) sb must).1.last
+       (twoStage st.op st.reg (opPart p) (regPart p) sb must).2.1.last
+   else none)
 
 inductive ResultKind where
   | success | partialFailure | error
